@@ -393,7 +393,11 @@ func CorpusHistories(scratch string, names map[string]bool) ([]*History, []strin
 				return []*TxSpec{t}
 			case 4, 7:
 				if len(s.contracts) >= 1 {
-					return []*TxSpec{call(s.User(0), 25000000, "script-call-gas-25M"), call(s.User(1), 25000000, "script-call-gas-25M-second"), call(s.User(2), 100000, "script-call-after-pool-refusal")}
+					// ... and between the refusal and the next contract call the refused sender acts natively:
+					// what the EVM side loaded for it before the refusal must not come back over that
+					nat := s.TxTransfer(s.User(1), s.User(2).Addr, "4000")
+					nat.Note = "script-native-transfer-after-pool-refusal"
+					return []*TxSpec{call(s.User(0), 25000000, "script-call-gas-25M"), call(s.User(1), 25000000, "script-call-gas-25M-second"), nat, call(s.User(2), 100000, "script-call-after-pool-refusal")}
 				}
 			case 5:
 				if len(s.contracts) >= 1 {
